@@ -3,7 +3,7 @@
    The proofs are written to survive harmless rewrites of the source (reordered or rephrased comparisons,
    renamed locals): they unfold, split on every test and finish with lia / computation. *)
 From Coq Require Import String ZArith List Bool Lia ZifyBool.
-From BU Require Import Lib.Bytes Lib.BytesFacts Lib.PySem Gen.Tables Model.Varint Model.Script Model.Seq
+From BU Require Import Lib.Bytes Lib.BytesFacts Lib.PySem Gen.Tables Model.Varint Model.Script Model.Seq Model.Tx
   Proofs.ScriptNumFacts.
 Import ListNotations.
 Open Scope list_scope.
@@ -178,3 +178,27 @@ Ltac tie_pipe :=
   autorewrite with tie; unfold prepend_compact_size; unfold of_option, option_map; reuse_eqns; cbv beta iota zeta;
   try reflexivity; try discriminate; try congruence;
   rewrite <- ?app_assoc; cbn [app]; rewrite <- ?app_assoc; try reflexivity; bytes_eq.
+
+(* ---------- loops ---------- *)
+(* a loop that appends g x for every element is concat_opt, whatever the loop body looks like as long as it
+   computes "state ++ g x, or raise" *)
+Lemma py_for_acc {A} (g : A -> res bytes) (f : A -> option bytes) :
+  (forall x, g x = of_option (f x)) ->
+  forall (body : A -> bytes -> res bytes),
+  (forall x st, body x st = match g x with Ok b => Ok (st ++ b) | _ => Raise end) ->
+  forall l acc, py_for l acc body = match concat_opt f l with Some b => Ok (acc ++ b) | None => Raise end.
+Proof.
+  intros Hg body Hb l. induction l as [|x r IH]; intros acc; cbn [py_for concat_opt].
+  - rewrite app_nil_r. reflexivity.
+  - rewrite Hb, Hg. destruct (f x) as [a|]; cbn [of_option]; [|reflexivity].
+    rewrite IH. destruct (concat_opt f r) as [b|]; [|reflexivity]. rewrite <- app_assoc. reflexivity.
+Qed.
+
+Ltac body_ok :=
+  intros; cbv beta iota zeta;
+  repeat match goal with
+         | |- context [match ?r with Ok _ => _ | RetNone => _ | Raise => _ end] =>
+             lazymatch r with context [match _ with _ => _ end] => fail | _ => destruct r end
+         end;
+  rewrite <- ?app_assoc; reflexivity.
+
